@@ -449,6 +449,10 @@ func gen(stream string, seed uint64, n int, out string) {
 	defer w.Close()
 	root := wire.NewRng(seed*1000003 + uint64(len(stream)))
 	for i := 0; i < n; i++ {
-		genCase(root.Fork(), i, stream, w)
+		if strings.HasPrefix(stream, "join") {
+			genJoinCase(root.Fork(), i, stream, w)
+		} else {
+			genCase(root.Fork(), i, stream, w)
+		}
 	}
 }
